@@ -96,3 +96,43 @@ MUTANTS += [
     ("flat_mean_interval", Q, "time_interval = np.median(np.diff(tinp)).astype(\"timedelta64[s]\").astype(float)\n\n    def rolling_window", "time_interval = np.median(np.diff(tinp)).astype(\"timedelta64[m]\").astype(\"timedelta64[s]\").astype(float)\n\n    def rolling_window", ["C11"]),
     ("flat_short_missing_regress", Q, "        flag_arr[inp.mask] = QartodFlags.MISSING\n        return flag_arr.reshape(original_shape)\n", "        return flag_arr.reshape(original_shape)\n", ["C11", "C02"]),
 ]
+MUTANTS += [
+    ("att_closed_both", Q, 'windows = series.rolling(f"{test_period}s", min_periods=min_periods)', 'windows = series.rolling(f"{test_period}s", min_periods=min_periods, closed="both")', ["C12"]),
+    ("att_min_period_inverted", Q, "min_periods = (min_period / time_interval).astype(int)", "min_periods = (time_interval / min_period).astype(int)", ["C12"]),
+    ("att_fail_le", Q, "flag_arr[check_val < fail_threshold] = QartodFlags.FAIL", "flag_arr[check_val <= fail_threshold] = QartodFlags.FAIL", ["C12"]),
+    ("att_suspect_le", Q, "flag_arr[check_val < suspect_threshold] = QartodFlags.SUSPECT", "flag_arr[check_val <= suspect_threshold] = QartodFlags.SUSPECT", ["C12"]),
+    ("att_fail_before_suspect", Q, """    flag_arr[check_val >= suspect_threshold] = QartodFlags.GOOD
+    flag_arr[check_val < suspect_threshold] = QartodFlags.SUSPECT
+    flag_arr[np.isnan(check_val)] = QartodFlags.UNKNOWN
+    flag_arr[check_val < fail_threshold] = QartodFlags.FAIL
+""", """    flag_arr[check_val < fail_threshold] = QartodFlags.FAIL
+    flag_arr[check_val >= suspect_threshold] = QartodFlags.GOOD
+    flag_arr[check_val < suspect_threshold] = QartodFlags.SUSPECT
+    flag_arr[np.isnan(check_val)] = QartodFlags.UNKNOWN
+""", ["C12", "C16"]),
+    ("att_window_std_population", Q, "window_func = lambda x: x.std()  # noqa", "window_func = lambda x: x.std(ddof=0)  # noqa", ["C12"]),
+    ("att_nowindow_std_sample", Q, "        check_func = np.std\n", "        check_func = lambda a: np.std(a, ddof=1)\n", ["C12"]),
+    ("att_min_obs_ignored", Q, "            min_periods = min_obs\n", "            min_periods = None\n", ["C12"]),
+    ("att_period_minutes", Q, 'series.rolling(f"{test_period}s"', 'series.rolling(f"{test_period}min"', ["C12"]),
+]
+MUTANTS += [
+    ("density_only_next_flagged", Q, "                flag_arr[:-1][is_fail == True] = QartodFlags.FAIL  # noqa:E712- Previous value\n", "", ["C13"]),
+    ("density_suspect_le", Q, "is_suspect = delta < suspect_threshold", "is_suspect = delta <= suspect_threshold", ["C13"]),
+    ("density_no_sign", Q, "delta = np.sign(np.diff(zinp)) * np.diff(inp)", "delta = np.diff(inp)", ["C13"]),
+    ("density_missing_next_dropped", Q, "    flag_arr[1:][is_missing[:-1]] = QartodFlags.MISSING\n", "", ["C13", "C02"]),
+    ("pressure_flag_index", R, "flag_idx = np.where(delta <= 0)[0] + 1", "flag_idx = np.where(delta <= 0)[0]", ["C13"]),
+    ("pressure_lt", R, "flag_idx = np.where(delta <= 0)[0] + 1", "flag_idx = np.where(delta < 0)[0] + 1", ["C13"]),
+    ("pressure_no_flip", R, "    if sign < 0:\n        delta = sign * delta", "    if sign < 0:\n        delta = delta", ["C13"]),
+    ("pressure_median_direction", R, "sign = np.sign(np.mean(delta))", "sign = np.sign(np.median(delta))", ["C13"]),
+    ("loc_bbox_ge", Q, "(lon < bbox.minx) | (lat < bbox.miny) | (lon > bbox.maxx) | (lat > bbox.maxy)", "(lon < bbox.minx) | (lat < bbox.miny) | (lon >= bbox.maxx) | (lat > bbox.maxy)", ["C14"]),
+    ("loc_range_removed", Q, """    if range_max is not None and lon.size > 1:
+        # Calculating the great_distance between each point
+        # Flag suspect any distance over range_max
+        d = great_circle_distance(lat, lon)
+        flag_arr[d > range_max] = QartodFlags.SUSPECT
+""", "", ["C14"]),
+    ("loc_range_ge", Q, "flag_arr[d > range_max] = QartodFlags.SUSPECT", "flag_arr[d >= range_max] = QartodFlags.SUSPECT", ["C14"]),
+    ("loc_mismatch_missing", Q, "    flag_arr[mismatch] = QartodFlags.FAIL\n", "    flag_arr[mismatch] = QartodFlags.MISSING\n", ["C14"]),
+    ("loc_bbox_minmax_swapped", Q, "(lon < bbox.minx) | (lat < bbox.miny)", "(lon < bbox.miny) | (lat < bbox.minx)", ["C14"]),
+    ("loc_shape_unchecked", Q, "    if lon.shape != lat.shape:\n        msg = f\"Lon ({lon.shape}) and lat", "    if False:\n        msg = f\"Lon ({lon.shape}) and lat", ["C14"]),
+]
